@@ -133,13 +133,22 @@ func VerifC03_Batch() {
 	} else {
 		h = vrtChooseHeaderFrom([]string{"1s:2s", "5s:15s", "1s:2s,2s:6s"}, Sum, 0.5)
 	}
+	vrtC03Batch(h, 1+vrt.Choose("batch", vrtMaxBatch()))
+}
+
+// VerifC03_Batch3: batches of exactly three points on a single small ring (orderings such as
+// "newest first with a duplicate" need three points).
+func VerifC03_Batch3() {
+	vrtC03Batch(vrtChooseHeaderFrom([]string{"1s:3s"}, Sum, 0.5), 3)
+}
+
+func vrtC03Batch(h *Header, nb int) {
 	now := vrtInstant(h, "now")
 	vrtAssumeClock(h, now)
 	img, pre := vrtInvImage(h, "s", now)
 	w := vrtOpenImage("c03b.wsp", img)
 	na := len(h.archiveInfoList)
 	id := -1 + vrt.Choose("id", na+1)
-	nb := 1 + vrt.Choose("batch", vrtMaxBatch())
 	pts := make([]Point, nb)
 	for i := range pts {
 		pts[i] = Point{Time: vrtInstant(h, vrt.N("pt", i)), Value: Value(vrt.F64(vrt.N("pv", i)))}
